@@ -245,6 +245,7 @@ func (fx *FuncCtx) callStatic(st *State, x *ssa.Call, callee *ssa.Function) (for
 			fx.warn("trusted contract of %s (%s)", ct.FuncKey, ct.Trusted)
 		}
 		fx.applyContract(st, x, callee, ct, args)
+		fx.afterCall(st, x)
 		return nil, false
 	}
 	if len(callee.Blocks) == 0 {
